@@ -39,6 +39,9 @@ def run(ctx):
     ctx.stream("regular_cert", gen.regular_cert_lines(ctx.rng.fork("regular_cert"), 1500 if ctx.quick else 40000),
                "CMRregularTest on graphic / cographic matrices of every size, certified by their graph (graphic => regular: GraphicRegular.v)",
                describe=lambda c: gen.REGULAR_CERT_CODES.get(c, str(c)), nontrivial=lambda l, r: True)
+    ctx.stream("regular_cert", gen.sp_cert_lines(ctx.rng.fork("regular_sp"), 800 if ctx.quick else 20000, False),
+               "CMRregularTest on series-parallel 0/1 matrices of every size, certified by the reduction model (SP => regular: SpTU.v)",
+               describe=lambda c: gen.REGULAR_CERT_CODES.get(c, str(c)), nontrivial=lambda l, r: True)
     from props import c10 as _c10
     ctx.stream("rel", gen.param_independence_lines(ctx.rng.fork("params"), 5000 if ctx.quick else 120000),
                "same verdict for every parameter combination: non-default parameters vs. defaults on permuted presentations (judge_rel, kind 1)",
